@@ -46,7 +46,7 @@ def sensitive_effects(p, fn, depth=0, seen=None):
                     st = p.enclosing_stmt(n)
                     if not (isinstance(st, ast.Assign) and is_home(st.value)):
                         eff.add("cwd-write")
-            if n.attr in ("data_connection", "passive_server") and not _only_done_test(p, n):
+            if n.attr in ("data_connection", "passive_server") and not _only_done_test(p, n) and not _closing_use(p, n):
                 eff.add("data-channel")
             if n.attr in ("rename_from", "transfer_type") and isinstance(n.ctx, ast.Store):
                 eff.add("session-state:" + n.attr)
@@ -67,6 +67,14 @@ def sensitive_effects(p, fn, depth=0, seen=None):
                     if not guarded:
                         eff |= {e.split("@")[0] + "@" + callee.name for e in handler_total_effects(p, callee, depth + 1, seen)}
     return eff
+
+
+def _closing_use(p, n):
+    """`<conn>.<field>.close()` / `del <conn>.<field>`: shutting a channel down is not serving anything"""
+    par = p.parent.get(n)
+    if isinstance(n.ctx, ast.Del):
+        return True
+    return isinstance(par, ast.Attribute) and par.attr == "close" and isinstance(p.parent.get(par), ast.Call)
 
 
 def _only_done_test(p, n):
@@ -123,7 +131,7 @@ def rule_guard(ctx):
         for n in walk_no_nested(fn):
             if isinstance(n, ast.Attribute) and n.attr == userf and isinstance(n.ctx, ast.Load) and isinstance(n.value, ast.Name) and n.value.id == conn:
                 guards = all_guards(p, n, fn)
-                ok = any(pol and is_done(t, conn, userf) for t, pol in guards)
+                ok = any(pol and (is_done(t, conn, userf) or is_done(t, conn, login)) for t, pol in guards)   # a completed login implies an identified user
                 ctx.ob("C03.GUARD", n, f"{name}: read of the session user is dominated by a presence test", ok,
                        f"{name}: read of the session user without user/login guard or done() test", function=p.qualname(fn),
                        construct=f"{name}:user read:{src(p.enclosing_stmt(n))[:60]}")
@@ -137,7 +145,7 @@ def is_done(t, conn, field):
 def rule_wrap(ctx):
     p = ctx.p
     ctx.rule("C03.WRAP", "the ConnectionConditions wrapper delegates only when every required future is done; otherwise it replies once and returns")
-    w, conn, paths = check_wrapper(ctx, "ConnectionConditions", "C03.WRAP")
+    w, conn, paths = check_wrapper(ctx, "ConnectionConditions", "C03.WRAP", count_replies=False)
     # the set of awaited futures is built from *all* of self.fields
     comp = None
     for n in walk_no_nested(w):
@@ -206,8 +214,9 @@ def rule_init(ctx):
     ctx.rule("C03.INIT", "the session constructor presets no field that a guard tests")
     ctor = p.session_ctor()
     fields = field_names(p)
-    bad = {k.arg for k in ctor.keywords if k.arg} & set(fields.values())
-    star = [k for k in ctor.keywords if k.arg is None]
+    kv = session_kwargs(p)
+    bad = set(kv) & set(fields.values())
+    star = [kv["**"]] if "**" in kv else []
     ctx.ob("C03.INIT", ctor, f"Connection(...) keywords are disjoint from the guard fields {sorted(fields.values())}", not bad and not star,
            f"session constructed with guard fields preset: {sorted(bad)}" if bad else "session constructed with **kwargs the analysis cannot see",
            construct="Connection(" + ",".join(sorted(bad)) + ")")
@@ -366,6 +375,7 @@ def rule_mgr(ctx):
         v = r.value
         if v is None:
             continue
+        v = expand(p, v, au)
         if isinstance(v, ast.Constant) and not v.value:
             ctx.ob("C03.MGR", r, "authenticate: constant refusal", True)
             continue
